@@ -606,7 +606,7 @@ def check_cases(ctx, cases, tag="tidy"):
 
 
 def run(ctx):
-    n = int(os.environ.get("VERIF_N", 800 if ctx.quick else 15000))
+    n = int(os.environ.get("VERIF_N", 800 if ctx.quick else 10000))
     ctx.coverage["rule"] = ("streams: exec 70% (20% of it with non-ASCII), forget 10% (databases with star / plain __forget_imports__ and look-alike "
                             "module names), dbdir 15% (database looked up through PYFLYBY_PATH: nested directories, symlinked directory and file, "
                             "hidden / non-.py decoys; a third of them also through bin/tidy-imports --print), seq 5% (2-3 modules with overlapping "
